@@ -324,6 +324,10 @@ def render(c, v, t, st, fault=None, path=()):
                 return "{" + vpart + "}"
             elif fault[1] == "union-extra":
                 return "{" + tpart + "," + vpart + ',"zzExtra":1}'
+            elif fault[1] == "union-type-misnamed":
+                # the discriminator under another name, before or after the value member
+                kpart = '"kind":' + jstr(v[2])
+                return "{" + (kpart + "," + vpart if fault[2] == "first" else vpart + "," + kpart) + "}"
             elif fault[1] == "union-type-not-string":
                 tpart = '"type":7'
         parts = [tpart, vpart]
@@ -612,6 +616,8 @@ def fault_sites(c, v, t, path=()):
         yield (path, "union-no-type", None, "union-missing-type")
         yield (path, "union-extra", None, "union-extra-member")
         yield (path, "union-type-not-string", None, "union-type-not-a-string")
+        yield (path, "union-type-misnamed", "first", "union-type-member-misnamed")
+        yield (path, "union-type-misnamed", "last", "union-type-member-misnamed")
         if c.exhaustive:
             yield (path, "replace", "{\"type\":\"zzFutureVariant\",\"zzFutureVariant\":1}", "exhaustive/unlisted-union-variant")
         ft = [f for f in d.fields if f[0] == v[2]][0][1]
